@@ -246,10 +246,10 @@ PROPS["C13"] = dict(
     title='Persistence failures are contained, reported once and never corrupt the log',
     theorems="Properties/C13.v",
     proof_files=["Bus/BusModel.v", "Bus/BusRun.v", "Bus/BusInv.v", "Properties/C13.v"],
-    suites=[dict(name="bus13", mod="core", family="bus13", corr="Corr.BusOracle", check="check_bus", shard=25), dict(name="bus09", mod="core", family="bus09", corr="Corr.BusOracle", check="check_bus", shard=25)],
+    suites=[dict(name="bus13", mod="core", family="bus13", corr="Corr.BusOracle", check="check_bus", shard=25), dict(name="bus09", mod="core", family="bus09", corr="Corr.BusOracle", check="check_bus", shard=25), dict(name="persisttimeout", mod="core", family="persisttimeout", corr="Corr.CorrStress", check="check_pt", shard=100)],
     level_text='Proved in Coq: an unencodable event makes no append attempt and reports once; a rejected or timed-out append leaves log and lastOffset exactly as they were, reports exactly once, releases the store lock; a successful one adds exactly one record; what follows (snapshot, delivery) is untouched in all cases; over every schedule the log is append-only. Tied to the code by controller-driven runs with random fault patterns (reject / timeout / two kinds of unencodable events incl. a MarshalJSON returning invalid JSON), first-publish and consecutive failures.',
     level_note='Trusted: Coq kernel + vm_compute; the hand-written small-step model of event_bus.go / persistEvent (flat registry; sync.Mutex, RWMutex, WaitGroup, atomic CAS, goroutine creation and recover are modelled as atomic micro-steps); the controller harness (parks goroutines at user-code callbacks, reads goroutine states from runtime.Stack) and the replay of its log on the model (Bus/BusRun.v); the oracle Corr/BusOracle.v; interleavings strictly inside bus code are not forced by the controller.',
-    rule='cases = seeded random programs (threads, handler/filter/hook bodies that call back into the bus, options) run on the real bus under the controller with a seeded random schedule; every run is replayed on the Coq model along the controller log and judged by the oracle; directed witness programs run first; C13: persistent buses, each published value mapped to ok/reject/timeout/unencodable with probability 3/8 of a fault; non-trivial = every case; distinct = distinct program+schedule',
+    rule='cases = seeded random programs (threads, handler/filter/hook bodies that call back into the bus, options) run on the real bus under the controller with a seeded random schedule; every run is replayed on the Coq model along the controller log and judged by the oracle; directed witness programs run first; C13: persistent buses, each published value mapped to ok/reject/timeout/unencodable with probability 3/8 of a fault; family persisttimeout (free-running): real persistence timeouts of 2-7 ms against a store that blocks until its context is done, per publish the number of error reports, handler runs and the log; non-trivial = every case; distinct = distinct program+schedule',
 )
 PROPS["C14"] = dict(
     title='What the SQLite store acknowledged survives reopening and a killed process',
